@@ -19,6 +19,31 @@ Definition mkslice (lo hi st : option expr) : expr :=
 (* tokens after which the upper bound of a slice is absent *)
 Definition slice_stop (t : tok) : bool := match t with TColon | TComma | TRB => true | _ => false end.
 
+(* the rest of a slice: after the upper bound (optional `:step`), and after the first colon (optional upper bound);
+   pe is the expression parser with the fuel of the caller *)
+Definition slice_after_upper (pe : nat -> list tok -> option (expr * list tok)) (lo hi : option expr) (r2 : list tok)
+  : option (expr * list tok) :=
+  match r2 with
+  | TColon :: r3 =>
+      match pe (req KSlice 0) r3 with
+      | Some (s, r4) => Some (mkslice lo hi (Some s), r4)
+      | None => None
+      end
+  | _ => Some (mkslice lo hi None, r2)
+  end.
+
+Definition slice_after_lower (pe : nat -> list tok -> option (expr * list tok)) (lo : option expr) (r : list tok)
+  : option (expr * list tok) :=
+  match r with
+  | t :: _ =>
+      if slice_stop t then slice_after_upper pe lo None r
+      else match pe (req KSlice 0) r with
+           | Some (u, r2) => slice_after_upper pe lo (Some u) r2
+           | None => None
+           end
+  | [] => None
+  end.
+
 Fixpoint parse_e (f lvl : nat) (ts : list tok) {struct f} : option (expr * list tok) :=
   match f with O => None | S f' =>
     match ts with
@@ -86,25 +111,17 @@ with climb (f lvl : nat) (lhs : expr) (ts : list tok) {struct f} : option (expr 
           | None => None
           end
         else Some (lhs, ts)
-    | TBool k :: r =>
+    | TBool k :: _ =>
         if is_bool k && (lvl <=? prec k) then
-          match parse_e f' (req k 0) r with
-          | Some (b, r1) =>
-              match bool_chain f' k r1 with
-              | Some (more, r2) => climb f' lvl (Node (LOp k) (lhs :: b :: more)) r2
-              | None => None
-              end
+          match bool_chain f' k ts with
+          | Some (more, r2) => climb f' lvl (Node (LOp k) (lhs :: more)) r2
           | None => None
           end
         else Some (lhs, ts)
-    | TCmp o :: r =>
+    | TCmp _ :: _ =>
         if lvl <=? prec KCompare then
-          match parse_e f' (req KCompare 0) r with
-          | Some (b, r1) =>
-              match cmp_chain f' r1 with
-              | Some (ops, more, r2) => climb f' lvl (Node (LCompare (o :: ops)) (lhs :: b :: more)) r2
-              | None => None
-              end
+          match cmp_chain f' ts with
+          | Some (ops, more, r2) => climb f' lvl (Node (LCompare ops) (lhs :: more)) r2
           | None => None
           end
         else Some (lhs, ts)
@@ -123,7 +140,7 @@ with climb (f lvl : nat) (lhs : expr) (ts : list tok) {struct f} : option (expr 
     end
   end
 
-(* further operands of `a or b or ...` / `a and b and ...` *)
+(* the operands after the first of `a or b or ...` / `a and b and ...`, each preceded by the operator *)
 with bool_chain (f : nat) (k : kind) (ts : list tok) {struct f} : option (list expr * list tok) :=
   match f with O => None | S f' =>
     match ts with
@@ -142,7 +159,7 @@ with bool_chain (f : nat) (k : kind) (ts : list tok) {struct f} : option (list e
     end
   end
 
-(* further links of a comparison chain *)
+(* the links `op operand` of a comparison chain *)
 with cmp_chain (f : nat) (ts : list tok) {struct f} : option (list cmpop * list expr * list tok) :=
   match f with O => None | S f' =>
     match ts with
@@ -230,30 +247,11 @@ with parse_args (f : nat) (ts : list tok) {struct f} : option (list expr * list 
 (* one item inside `[...]` of a subscript: an expression or a slice lower:upper:step *)
 with parse_sitem (f : nat) (ts : list tok) {struct f} : option (expr * list tok) :=
   match f with O => None | S f' =>
-    let after_upper (lo hi : option expr) (r2 : list tok) : option (expr * list tok) :=
-      match r2 with
-      | TColon :: r3 =>
-          match parse_e f' (req KSlice 0) r3 with
-          | Some (s, r4) => Some (mkslice lo hi (Some s), r4)
-          | None => None
-          end
-      | _ => Some (mkslice lo hi None, r2)
-      end in
-    let after_lower (lo : option expr) (r : list tok) : option (expr * list tok) :=
-      match r with
-      | t :: _ =>
-          if slice_stop t then after_upper lo None r
-          else match parse_e f' (req KSlice 0) r with
-               | Some (u, r2) => after_upper lo (Some u) r2
-               | None => None
-               end
-      | [] => None
-      end in
     match ts with
-    | TColon :: r => after_lower None r
+    | TColon :: r => slice_after_lower (parse_e f') None r
     | _ =>
         match parse_e f' (req KSubscript 1) ts with
-        | Some (a, TColon :: r) => after_lower (Some a) r
+        | Some (a, TColon :: r) => slice_after_lower (parse_e f') (Some a) r
         | Some (a, r) => Some (a, r)
         | None => None
         end
